@@ -674,3 +674,25 @@ DIV_REPORTS = []
 def log_div(b, guard=()):
     if DIV_LOG is not None and isinstance(b, RF) and not b.is_const():
         DIV_LOG.append((b, tuple(guard or ())))
+
+
+# --- cancellation log (survey / C16) -----------------------------------------------------------------------------------------
+# a - b where a and b share whole monomials (|d|^2 - d_z^2 instead of d_x^2 + d_y^2): equal over the reals, but the shared part is rounded away
+# from the small remainder in floating point.  Recorded when switched on: (a, b, number of monomials that cancel).
+CANCEL_LOG = None
+
+
+def log_cancel(a, b, sub=True):
+    if CANCEL_LOG is None or not isinstance(a, RF) or not isinstance(b, RF):
+        return
+    if a.is_const() or b.is_const() or not p_is_const(a.den) or not p_is_const(b.den):
+        return
+    n = 0
+    for m, c in a.num.items():
+        if m == ():
+            continue
+        d = b.num.get(m)
+        if d is not None and ((c > 0) == (d > 0)) == sub and abs(c / p_const_value(a.den)) == abs(d / p_const_value(b.den)):
+            n += 1
+    if n:
+        CANCEL_LOG.append((a, b, n))
